@@ -223,7 +223,7 @@ def reduce_coverage(facts, res):
         # cross-check: each field merged into the same-named result field
         txt = facts.ntext(b)
         for fld in fields:
-            if not re.search(r"result\.%s(=|\.merge\()inOther[12]\.%s" % (fld, fld), txt):
+            if not re.search(r"result\.%s(\+?=|\.merge\()inOther[12]\.%s" % (fld, fld), txt):
                 res.violation("C18.3.reduce-covers-fields", tbf.rel(facts.path_of(m)), m["qname"], fld + ":target", m["l"][1], "field %s is not merged into result.%s" % (fld, fld))
 
 
